@@ -6,6 +6,9 @@
 #include <sys/mman.h>
 #include <unistd.h>
 
+void verif_paint_obj(void *p, size_t n);   /* common.c */
+void verif_unpoison(void *p, size_t n);
+
 #define NSLOTS 24
 #define PAGE 4096
 #define DATA_PAGES 1
@@ -148,7 +151,9 @@ static void *lib_alloc(size_t size, size_t align, int zero)
     memset(d, CANARY, DATA_PAGES * PAGE);
     p = d + DATA_PAGES * PAGE - size;
     p = (uint8_t *)((uintptr_t)p & ~(uintptr_t)(align - 1));
-    memset(p, zero ? 0 : 0xA5, size);
+    /* blocks the library did not ask to have cleared hold the paint pattern of this run
+     * (0xA5 without --paint) and are poisoned under MemorySanitizer */
+    if (zero) memset(p, 0, size); else verif_paint_obj(p, size);
     recs[i].ptr = p; recs[i].size = size; recs[i].live = 1; recs[i].freed = 0;
     recs[i].wiped = -1; recs[i].first_dirty = -1; recs[i].canary_ok = 1;
     dirty[i] = 1;
@@ -163,6 +168,7 @@ static void lib_free(void *ptr)
     for (i = 0; i < nrecs; ++i) {
         if (recs[i].ptr == (uint8_t *)ptr) {
             if (!recs[i].live) { ++g_lerr.double_free; return; }
+            verif_unpoison(recs[i].ptr, recs[i].size);
             recs[i].wiped = 1;
             for (k = 0; k < recs[i].size; ++k)
                 if (recs[i].ptr[k]) { recs[i].wiped = 0; recs[i].first_dirty = (int)k; break; }
